@@ -11,12 +11,29 @@
 //!                                         ends on `is_char_boundary`;
 //!                                       * rendering every report with codespan-reporting (the way src/reporting.rs and
 //!                                         tests/common/mod.rs do) succeeds.
-//!   (c07-cli generate|reject "text")  the REAL `qmluic generate-ui` binary built from /repo's working tree (release) on
+//!   (c07-cli generate|reject[-sub|-up] "text")   (-sub: the document in `sub/é dir/`, -up: above the working directory,
+//!                                     given by absolute path — the report names it relative to the working directory)
+//!                                     the REAL `qmluic generate-ui` binary built from /repo's working tree (release) on
 //!                                     `Main.qml` in a fresh directory under std::env::temp_dir(), 20 s timeout: the exit
 //!                                     status must be 0 or 1 (not 101 = panic, not a signal, not a timeout).
 //!   (c07-cli-gen generate|reject KIND N)   same, on a text generated here: KIND ∈ sum | objects | parens | array | ternary |
 //!                                     unary | member | block (N nesting levels) — deep inputs are tested ONLY this way
 //!                                     (finding F11: stack exhaustion; the in-process inputs keep nesting ≤ 60).
+//!   (c07-trivia "base" POS "trivia")  TRIVIA ORACLE (part of the tie, not a clause of C07 proper): comments and blank space are
+//!                                     extras of the grammar, so a VALID document with a comment / blank line put in at a token
+//!                                     boundary must behave exactly like the document without it — in every mode the same
+//!                                     acceptance, the same diagnostics (kind + message multiset), the same .ui and header
+//!                                     bytes — and the mutated text must pass the totality oracle of `c07` itself.  The
+//!                                     position classes at which the GRAMMAR parses differently (restricted productions /
+//!                                     automatic semicolon insertion; all need a line terminator in the trivia) are listed
+//!                                     with their reason in c07/trivia.rs; there only totality is demanded.
+//!   (c07-trivia-each "base" SEED)     the same at EVERY token boundary of the document (one trivia text without and one with
+//!                                     a line terminator per boundary, each in one of the three modes); all failing positions
+//!                                     are listed: `(f "class" pos "line:col" "trivia" "what")`.
+//!   (c07-trivia-sat "base" "trivia")  the trivia text at every token boundary AT ONCE; on a difference every boundary (and the
+//!                                     two boundaries of every gap together) is tried alone, the failing ones are listed and
+//!                                     the saturation without them must be equal.
+//!   (c07-trivia-scan "text")          debugging aid: the token boundaries with their position classes.
 //! Answers: `(ok …stats…)`, `(fail "what" …)`, `(panic "message" (mode m))`.
 use crate::env::{self, Mode};
 use crate::rng::Rng;
@@ -34,10 +51,14 @@ use qmluic_cli::reporting;
 use std::panic::{catch_unwind, AssertUnwindSafe};
 use std::time::{Duration, Instant};
 
+mod trivia;
+
 pub struct C07 {
     tm: TypeMap,
     /// (origin label, text): /repo/examples/*.qml and the r###"…"### blocks of /repo/tests/*.rs
     bases: Vec<(String, String)>,
+    /// outcomes of trivia base documents (many trivia cases share one base document)
+    base_cache: std::sync::Mutex<std::collections::HashMap<String, std::sync::Arc<Vec<ModeStats>>>>,
 }
 
 const MAX_INPROC_DEPTH: usize = 60;
@@ -331,7 +352,152 @@ fn semantic_stress() -> Vec<(&'static str, String)> {
         ("separator", w("    QAction { separator: true }\n    QMenu { QAction { separator: true; text: \"x\" } }")),
         ("separator-dynamic", w("    QAction { id: a; separator: a.enabled }")),
         ("variant-prop", w("    QComboBox { currentData: 1 }")),
+        // label stress: diagnostics that carry LABEL ranges (operand types, condition types, duplicated ids, assignment
+        // types) with multi-byte text before / inside / after the labelled nodes, on one line and spread over several
+        ("label-binary-utf8", w("    windowTitle: \"é中😀\" + 1")),
+        ("label-binary-utf8-both", w("    windowTitle: /* é */ \"😀\" /* 中 */ - /* \u{301} */ \"é\" // 😀")),
+        ("label-binary-multiline", w("    windowTitle: \"é\"\n        +\n\n\t\t1 // 中\n")),
+        ("label-compare-utf8", w("    enabled: \"😀\" == 1")),
+        ("label-compare-enum", w("    enabled: Qt.AlignLeft == \"é\"")),
+        ("label-logical-utf8", w("    enabled: \"é\" && /* 中 */ 1")),
+        ("label-not-utf8", w("    enabled: !\"é中\"")),
+        ("label-condition-utf8", w("    windowTitle: { if (\"😀\") { \"a\" } else { \"b\" } }")),
+        ("label-ternary-utf8", w("    windowTitle: \"é\" ? \"中\" : 1")),
+        ("label-ternary-branches", w("    windowTitle: enabled ? \"é中😀\" : /* 😀 */ 1")),
+        ("label-pointer-mix", w("    QLabel { id: l1 }\n    QMenu { id: m1 }\n    QLabel { buddy: true ? l1 /* é */ : m1 }")),
+        ("label-action-menu", w("    QAction { id: a1 }\n    QMenu { id: m1 }\n    actions: [a1, /* 中 */ m1]")),
+        ("label-numeric-mix", w("    QDoubleSpinBox { id: d }\n    minimumWidth: /* é */ d.value + 1")),
+        ("label-dup-id-utf8", w("    QLabel { id: é中 }\n    // 😀\n    QLabel { id: é中 }")),
+        ("label-dup-id-far", w("    QLabel { id: dup } /* é */ QLabel { text: \"😀😀😀\"; id: dup }\n    QLabel { id: dup }")),
+        ("label-assign-utf8", w("    onWindowTitleChanged: { root.windowTitle = /* é */ 1; root.minimumWidth = \"中\" }")),
+        ("label-callback-arith", w("    QPushButton { onClicked: function(c: bool) { let é = \"é\" * c; let z = c + \"😀\" } }")),
+        ("label-switch-case-type", w("    windowTitle: { switch (\"é\") { case 1: \"a\"; break; case /* 中 */ true: \"b\"; break; default: \"c\" } }")),
+        ("label-crlf", raw("import qmluic.QtWidgets\r\nQWidget {\r\n    windowTitle: \"é\" +\r\n        1\r\n}\r\n")),
+        ("label-tabs", raw("import qmluic.QtWidgets\nQWidget {\n\twindowTitle:\t\"é\"\t+\t1\t// 中\n}\n")),
+        ("label-last-byte", raw("import qmluic.QtWidgets\nQWidget { windowTitle: \"é\" + 1 }")),
+        ("label-zero-width", w("    windowTitle: \"a\" + \u{200B}1")),
     ]
+}
+
+/// (label, document): control-flow stress, built systematically — switch statements with 0..3 cases and `default` absent /
+/// first / in every middle position / last, in a binding (clauses return) and in a callback (clauses assign and break, one
+/// falls through), nested switches with and without braces, if / else-if chains of depth 0..3 with and without braces and
+/// final else, nested ternaries, let / const with and without type annotation, callbacks with parameters, every call /
+/// array / member / cast shape.  All of them are valid documents (the trivia family needs valid bases; the mutation and
+/// truncation families break them).
+fn control_flow_stress() -> Vec<(String, String)> {
+    let doc = |label_text: &str, button_members: &str, extra: &str| {
+        format!(
+            "import qmluic.QtWidgets\n\nQWidget {{\n    id: root\n    QSpinBox {{ id: spin }}\n    QLineEdit {{ id: edit }}\n    QCheckBox {{ id: check }}\n    QLabel {{\n        id: label\n        text: {label_text}\n    }}\n    QPushButton {{\n        id: button\n{button_members}\n    }}\n{extra}}}\n"
+        )
+    };
+    let mut out: Vec<(String, String)> = vec![];
+    // switch: n cases, default at every position or absent
+    for n in 0..=3usize {
+        let mut dpositions: Vec<Option<usize>> = vec![None];
+        dpositions.extend((0..=n).map(Some));
+        for dpos in dpositions {
+            let mut ret_clauses: Vec<String> = (0..n).map(|i| format!("case {i}: return \"c{i}\";")).collect();
+            let mut cb_clauses: Vec<String> = (0..n)
+                .map(|i| if i == 1 { format!("case {i}: label.text = \"c{i}\";") } else { format!("case {i}: label.text = \"c{i}\"; break;") })
+                .collect();
+            if let Some(d) = dpos {
+                ret_clauses.insert(d, "default: return \"d\";".to_owned());
+                cb_clauses.insert(d, if d == n { "default: edit.text = \"d\"".to_owned() } else { "default: edit.text = \"d\"; break;".to_owned() });
+            }
+            let tail = if dpos.is_none() { " return \"none\";" } else { "" };
+            let binding = format!("{{ switch (spin.value) {{ {} }}{tail} }}", ret_clauses.join(" "));
+            let callback = format!(
+                "        onClicked: function(checked: bool) {{\n            switch (spin.value) {{\n            {}\n            }}\n        }}",
+                cb_clauses.join("\n            ")
+            );
+            let name = match dpos {
+                None => format!("switch-{n}-nodefault"),
+                Some(d) => format!("switch-{n}-default-at-{d}"),
+            };
+            out.push((name, doc(&binding, &callback, "")));
+        }
+    }
+    // nested switches
+    out.push((
+        "switch-nested-braced".into(),
+        doc(
+            "{ switch (spin.value) { case 0: { switch (edit.text) { case \"a\": return \"0a\"; default: return \"0\" } } default: return \"d\" } }",
+            "        onClicked: { switch (spin.value) { case 0: { switch (edit.text) { default: label.text = \"x\"; break; case \"a\": break } break } case 1: break; default: edit.clear() } }",
+            "",
+        ),
+    ));
+    out.push((
+        "switch-nested-bare".into(),
+        doc(
+            "{ switch (spin.value) { default: switch (edit.text) { case \"a\": return \"a\" } return \"d\"; case 1: return \"1\" } }",
+            "        onClicked: { switch (spin.value) { case 0: switch (edit.text) { case \"a\": break; default: break } break; default: switch (1) { } } }",
+            "",
+        ),
+    ));
+    out.push((
+        "switch-completion-values".into(),
+        doc("{ switch (spin.value) { case 1: \"a\"; break; case 2: \"b\"; break; default: \"c\" } }", "        onClicked: { switch (check.checked) { case true: case false: edit.clear() } }", ""),
+    ));
+    // if / else-if chains
+    for depth in 0..=3usize {
+        for (braces, final_else) in [(true, true), (true, false), (false, true), (false, false)] {
+            let wrap = |st: String| if braces { format!("{{ {st} }}") } else { format!("{st};") };
+            let mut b = format!("if (spin.value > 0) {}", wrap("return \"p\"".into()));
+            let mut c = format!("if (checked) {}", wrap("label.text = \"p\"".into()));
+            for i in 0..depth {
+                b.push_str(&format!(" else if (spin.value < -{i}) {}", wrap(format!("return \"n{i}\""))));
+                c.push_str(&format!(" else if (spin.value < -{i}) {}", wrap(format!("edit.text = \"n{i}\""))));
+            }
+            if final_else {
+                b.push_str(&format!(" else {}", wrap("return \"z\"".into())));
+                c.push_str(&format!(" else {}", wrap("edit.clear()".into())));
+            }
+            out.push((
+                format!("if-chain-{depth}-{}-{}", if braces { "braces" } else { "bare" }, if final_else { "else" } else { "noelse" }),
+                doc(&format!("{{ {b} return \"after\" }}"), &format!("        onClicked: function(checked: bool) {{ {c} }}"), ""),
+            ));
+        }
+    }
+    // ternaries, let / const, callbacks with parameters, call / array / member / cast shapes
+    out.push((
+        "ternary-nested".into(),
+        doc(
+            "spin.value > 0 ? spin.value > 1 ? \"two\" : \"one\" : check.checked ? \"zero\" : (edit.text)",
+            "        enabled: check.checked ? true : false\n        onClicked: label.text = check.checked ? qsTr(\"on\") : \"off\"",
+            "",
+        ),
+    ));
+    out.push((
+        "let-const".into(),
+        doc(
+            "{ let s: QString = edit.text; const n = spin.value * 2, m: int = 1; let t: QString; t = \"!\"; if (n > m) { s = s + t } return s }",
+            "        onClicked: { let a = 1; const b: int = a + 2; { let a = \"inner\"; label.text = a } spin.value = a + b }",
+            "",
+        ),
+    ));
+    out.push((
+        "callback-parameters".into(),
+        doc(
+            "\"x\"",
+            "        checkable: true\n        onToggled: function(on: bool) { label.text = on ? \"on\" : \"off\" }\n        onClicked: function() { edit.clear() }\n        onPressed: edit.clear()\n        onReleased: { edit.clear(); label.clear() }",
+            "    QSpinBox { id: spin2; onValueChanged: function(v: int) { label.text = v > 0 ? \"p\" : \"n\"; spin.value = v } }\n    QLineEdit { id: edit2; onTextChanged: function(t: QString) { label.text = t } }\n    QComboBox { id: combo; onCurrentIndexChanged: function(i: int) { let k = i + 1; spin.value = k } }\n",
+        ),
+    ));
+    out.push((
+        "expression-shapes".into(),
+        doc(
+            "qsTr(\"%1 of %2\").arg(spin.value).arg(Math.max(1, spin.value, 3)) + [\"a\", \"b\", edit.text][0] + (spin.value as double > 1.5 ? \"\" : \"-\")",
+            "        enabled: !check.checked && (spin.value >= -1 || edit.text != \"\") && this.enabled\n        onClicked: { console.log(\"a\", spin.value, [1, 2, 3][1]); root.windowTitle = edit.text + \"/* no comment */\" + '// neither'; spin.value = -spin.value + ~1 - (2 << 1) % 3 }",
+            "    QComboBox { model: [\"a\", qsTr(\"b\"), \"*/\", \"/*\", \"//\"]; currentIndex: -1 + (2 as int) }\n    actions: [act1, act2]\n    QAction { id: act1; text: \"*/ not a comment // either /* nor this\" }\n    QAction { id: act2; shortcut: QKeySequence.Copy }\n",
+        ),
+    ));
+    out.push((
+        "object-member-shapes".into(),
+        "import qmluic.QtWidgets\nimport qmluic.QtWidgets 1.0\n\n// leading comment\n/* and a block */\nQDialog {\n    id: root\n    windowTitle: qsTr(\"t\"); minimumWidth: 10\n    font { bold: true; pointSize: 10 }\n    font.family: \"Sans\"\n    sizePolicy.horizontalPolicy: QSizePolicy.Expanding; sizePolicy.verticalPolicy: QSizePolicy.Fixed\n    QGridLayout {\n        columns: 2\n        QLabel { QLayout.row: 0; QLayout.column: 1; QLayout.alignment: Qt.AlignLeft | Qt.AlignTop; text: \"a\" }\n        QLabel { id: l2; buddy: le; text: \"&b\" }\n        QLineEdit { id: le }\n        QSpacerItem {}\n    }\n    QTabWidget { QWidget { QTabWidget.title: \"one\" } QWidget { QTabWidget.title: qsTr(\"two\") } }\n} // trailing comment\n"
+            .to_owned(),
+    ));
+    out
 }
 
 fn extract_test_snippets(src: &str) -> Vec<String> {
@@ -395,7 +561,7 @@ impl C07 {
                 }
             }
         }
-        C07 { tm: env::load_type_map_with(env::adversarial_classes()), bases }
+        C07 { tm: env::load_type_map_with(env::adversarial_classes()), bases, base_cache: Default::default() }
     }
 }
 
@@ -482,7 +648,18 @@ fn mutate(rng: &mut Rng, src: &str) -> (&'static str, String) {
     let pick = |rng: &mut Rng| solid[rng.below(solid.len())];
     let join = |v: &[String]| v.concat();
     let mut v: Vec<String> = toks.iter().map(|t| (*t).to_owned()).collect();
-    match rng.below(16) {
+    match rng.below(17) {
+        16 => {
+            // multi-byte characters everywhere (strings, comments, extra comments), then usually one more mutation: any
+            // byte-count arithmetic on a range (clipping, offsets) then lands inside a character
+            let dense = densify(rng, src);
+            if rng.chance(3, 4) {
+                let (_, again) = mutate(rng, &dense);
+                ("utf8-dense", again)
+            } else {
+                ("utf8-dense", dense)
+            }
+        }
         0 => {
             let i = pick(rng);
             v.remove(i);
@@ -631,6 +808,38 @@ fn mutate(rng: &mut Rng, src: &str) -> (&'static str, String) {
     }
 }
 
+/// The text with the letters, digits and blanks inside string literals and comments replaced (every other one) by 2-, 3- and
+/// 4-byte characters, and a multi-byte comment put into some of the gaps between tokens.
+fn densify(rng: &mut Rng, src: &str) -> String {
+    const WIDE: &[char] = &['é', '中', '😀', 'ß', '→', '𝄞'];
+    let mut out = String::with_capacity(src.len() * 2);
+    for t in lex(src) {
+        let first = t.chars().next().unwrap_or(' ');
+        if first == '"' || first == '\'' || t.starts_with("//") || t.starts_with("/*") {
+            let cs: Vec<char> = t.chars().collect();
+            let (lo, hi) = if t.starts_with('/') { (2, cs.len().saturating_sub(if t.starts_with("/*") { 2 } else { 0 })) } else { (1, cs.len().saturating_sub(1)) };
+            let mut escaped = false;
+            for (i, c) in cs.iter().enumerate() {
+                if i >= lo && i < hi && !escaped && (c.is_ascii_alphanumeric() || *c == ' ') && rng.chance(1, 2) {
+                    out.push(*rng.pick(WIDE));
+                } else {
+                    out.push(*c);
+                }
+                escaped = !escaped && *c == '\\';
+            }
+        } else if is_blank(t) && !t.contains('\n') && rng.chance(1, 6) {
+            out.push_str(" /* ");
+            for _ in 0..1 + rng.below(40) {
+                out.push(*rng.pick(WIDE));
+            }
+            out.push_str(" */ ");
+        } else {
+            out.push_str(t);
+        }
+    }
+    out
+}
+
 fn token_soup(rng: &mut Rng, max: usize) -> String {
     let n = 1 + rng.below(max);
     let mut s = String::new();
@@ -684,6 +893,10 @@ struct ModeStats {
     labels: usize,
     xml_bytes: usize,
     header_bytes: usize,
+    /// `error: message` / `warning: message` of every diagnostic, in report order (trivia oracle)
+    messages: Vec<String>,
+    ui: Option<String>,
+    header: Option<String>,
 }
 
 fn render_all(doc: &UiDocument, ds: impl IntoIterator<Item = reporting::ReportableDiagnostic>) -> Result<usize, String> {
@@ -750,8 +963,14 @@ fn check_mode(tm: &TypeMap, src: &str, mode: Mode) -> Result<ModeStats, String> 
             }
         }
         match d.kind() {
-            DiagnosticKind::Error => st.errors += 1,
-            DiagnosticKind::Warning => st.warnings += 1,
+            DiagnosticKind::Error => {
+                st.errors += 1;
+                st.messages.push(format!("error: {}", d.message()));
+            }
+            DiagnosticKind::Warning => {
+                st.warnings += 1;
+                st.messages.push(format!("warning: {}", d.message()));
+            }
         }
     }
     if diags.has_error() != (st.errors > 0) {
@@ -767,10 +986,13 @@ fn check_mode(tm: &TypeMap, src: &str, mode: Mode) -> Result<ModeStats, String> 
             st.xml_bytes = ui.len();
             // a form produced next to error diagnostics is never written by the CLI; it must still serialise
             xml::parse(&ui).map_err(|e| format!("the produced .ui is not well-formed XML: {e}"))?;
+            st.ui = Some(ui);
             if let Some(s) = sup {
                 let mut b = Vec::new();
                 s.write_header(&mut b).map_err(|e| format!("write_header failed: {e}"))?;
-                st.header_bytes = String::from_utf8(b).map_err(|_| "the header is not UTF-8".to_owned())?.len();
+                let h = String::from_utf8(b).map_err(|_| "the header is not UTF-8".to_owned())?;
+                st.header_bytes = h.len();
+                st.header = Some(h);
             }
         }
         None => {
@@ -780,6 +1002,361 @@ fn check_mode(tm: &TypeMap, src: &str, mode: Mode) -> Result<ModeStats, String> 
         }
     }
     Ok(st)
+}
+
+// ---------------------------------------------------------------------------------------------- trivia oracle
+
+/// The text with `trivia` put in at byte `pos` (a token boundary).  `/` directly before `/…` would start or extend a
+/// comment, so the two are kept apart by a blank.
+fn insert_trivia(base: &str, pos: usize, trivia: &str) -> String {
+    let mut s = String::with_capacity(base.len() + trivia.len() + 1);
+    s.push_str(&base[..pos]);
+    if base[..pos].ends_with('/') && trivia.starts_with('/') {
+        s.push(' ');
+    }
+    s.push_str(trivia);
+    s.push_str(&base[pos..]);
+    s
+}
+
+/// Totality oracle in all three modes; Err = the answer to give (`(fail …)` / `(panic …)`).
+fn run_all_modes(tm: &TypeMap, src: &str) -> Result<Vec<ModeStats>, (String, &'static str, bool)> {
+    run_modes(tm, src, &Mode::all())
+}
+
+fn run_modes(tm: &TypeMap, src: &str, modes: &[Mode]) -> Result<Vec<ModeStats>, (String, &'static str, bool)> {
+    let mut per_mode = vec![];
+    for &mode in modes {
+        match catch_unwind(AssertUnwindSafe(|| check_mode(tm, src, mode))) {
+            Ok(Ok(s)) => per_mode.push(s),
+            Ok(Err(what)) => return Err((what, mode.name(), false)),
+            Err(e) => return Err((panic_text(e), mode.name(), true)),
+        }
+    }
+    Ok(per_mode)
+}
+
+fn summary(s: &ModeStats) -> String {
+    format!(
+        "[{}{} errors={} warnings={}]",
+        if s.syntax_errors > 0 { format!("syntax-errors={} ", s.syntax_errors) } else { String::new() },
+        if s.built { "built" } else { "not-built" },
+        s.errors,
+        s.warnings
+    )
+}
+
+fn first_difference(a: &str, b: &str) -> String {
+    let n = a.bytes().zip(b.bytes()).take_while(|(x, y)| x == y).count();
+    let cut = |s: &str| {
+        let mut lo = n.saturating_sub(30);
+        while !s.is_char_boundary(lo) {
+            lo -= 1;
+        }
+        let mut hi = (n + 30).min(s.len());
+        while !s.is_char_boundary(hi) {
+            hi += 1;
+        }
+        s[lo..hi].to_owned()
+    };
+    format!("first difference at byte {n}: {:?} / {:?}", cut(a), cut(b))
+}
+
+/// None = the mutated document behaves exactly like the base document (acceptance, diagnostics, .ui and header bytes,
+/// in every mode); otherwise a one-line description of the first difference.
+fn compare_outcomes(base: &[ModeStats], mutated: &[ModeStats], modes: &[Mode]) -> Option<String> {
+    for ((b, m), mode) in modes.iter().map(|m| &base[Mode::all().iter().position(|x| x == m).unwrap()]).zip(mutated).zip(modes.iter().copied()) {
+        let mut what = vec![];
+        if b.syntax_errors != m.syntax_errors || b.built != m.built || b.errors != m.errors || b.warnings != m.warnings {
+            what.push(format!("base={} mutated={}", summary(b), summary(m)));
+        }
+        let mut only_b: Vec<&String> = vec![];
+        let mut rest: Vec<&String> = m.messages.iter().collect();
+        for x in &b.messages {
+            match rest.iter().position(|y| *y == x) {
+                Some(i) => {
+                    rest.remove(i);
+                }
+                None => only_b.push(x),
+            }
+        }
+        for x in only_b {
+            what.push(format!("-{x:?}"));
+        }
+        for x in rest {
+            what.push(format!("+{x:?}"));
+        }
+        if what.is_empty() {
+            match (&b.ui, &m.ui) {
+                (Some(x), Some(y)) if x != y => what.push(format!("the .ui differs, {}", first_difference(x, y))),
+                (Some(_), None) | (None, Some(_)) => what.push("one has a .ui, the other has not".into()),
+                _ => {}
+            }
+            match (&b.header, &m.header) {
+                (Some(x), Some(y)) if x != y => what.push(format!("the header differs, {}", first_difference(x, y))),
+                (Some(_), None) | (None, Some(_)) => what.push("one has a support header, the other has not".into()),
+                _ => {}
+            }
+        }
+        if !what.is_empty() {
+            return Some(format!("mode {}: {}", mode.name(), what.join(" ")));
+        }
+    }
+    None
+}
+
+enum TriviaVerdict {
+    Same,
+    /// the position class is one at which the grammar itself parses differently (trivia::grammar_exception)
+    Grammar(&'static str, &'static str),
+    /// a difference or a totality failure of the mutated text
+    Bad(String),
+}
+
+struct TriviaBase<'a> {
+    tm: &'a TypeMap,
+    text: &'a str,
+    outcome: std::sync::Arc<Vec<ModeStats>>,
+}
+
+impl<'a> TriviaBase<'a> {
+    fn judge_text(&self, mutated: &str) -> Result<(), String> {
+        match run_all_modes(self.tm, mutated) {
+            Ok(m) => match compare_outcomes(&self.outcome, &m, &Mode::all()) {
+                None => Ok(()),
+                Some(d) => Err(d),
+            },
+            Err((what, mode, true)) => Err(format!("PANIC in mode {mode}: {what}")),
+            Err((what, mode, false)) => Err(format!("totality oracle fails in mode {mode}: {what}")),
+        }
+    }
+
+    /// `modes`: the dynamic-binding modes the mutated text is translated in (the base outcome has all three)
+    fn judge(&self, b: &trivia::Boundary, tr: &str, modes: &[Mode]) -> TriviaVerdict {
+        let mutated = insert_trivia(self.text, b.pos, tr);
+        match run_modes(self.tm, &mutated, modes) {
+            Ok(m) => match compare_outcomes(&self.outcome, &m, modes) {
+                None => TriviaVerdict::Same,
+                Some(d) => match trivia::grammar_exception(b, tr) {
+                    Some(why) => TriviaVerdict::Grammar(why, if m[0].syntax_errors > 0 { "syntax-error" } else { "different-parse" }),
+                    None => TriviaVerdict::Bad(d),
+                },
+            },
+            // no exception table excuses a panic or a bad range
+            Err((what, mode, true)) => TriviaVerdict::Bad(format!("PANIC in mode {mode}: {what}")),
+            Err((what, mode, false)) => TriviaVerdict::Bad(format!("totality oracle fails in mode {mode}: {what}")),
+        }
+    }
+}
+
+fn line_col(text: &str, pos: usize) -> String {
+    let line = text[..pos].matches('\n').count() + 1;
+    let col = text[..pos].rfind('\n').map(|i| pos - i - 1).unwrap_or(pos) + 1;
+    format!("{line}:{col}")
+}
+
+/// `(f "class" pos "line:col" "trivia" "what")`
+fn trivia_failure(base: &str, b: &trivia::Boundary, tr: &str, what: &str) -> Sexp {
+    node("f", vec![st(b.class()), num(b.pos), st(line_col(base, b.pos)), st(tr), st(what)])
+}
+
+fn excerpt(text: &str) -> String {
+    if text.len() <= 4000 {
+        text.to_owned()
+    } else {
+        let mut hi = 4000;
+        while !text.is_char_boundary(hi) {
+            hi -= 1;
+        }
+        format!("{}…", &text[..hi])
+    }
+}
+
+#[derive(Default)]
+struct TriviaTally {
+    insertions: usize,
+    same: usize,
+    grammar: std::collections::BTreeMap<(String, &'static str, &'static str), usize>,
+    failures: Vec<Sexp>,
+    n_failures: usize,
+    first_mutated: Option<String>,
+}
+
+impl TriviaTally {
+    fn record(&mut self, base: &TriviaBase, b: &trivia::Boundary, tr: &str) {
+        self.record_in(base, b, tr, &Mode::all())
+    }
+
+    fn record_in(&mut self, base: &TriviaBase, b: &trivia::Boundary, tr: &str, modes: &[Mode]) {
+        self.insertions += 1;
+        match base.judge(b, tr, modes) {
+            TriviaVerdict::Same => self.same += 1,
+            TriviaVerdict::Grammar(why, effect) => *self.grammar.entry((b.class(), why, effect)).or_insert(0) += 1,
+            TriviaVerdict::Bad(what) => {
+                self.n_failures += 1;
+                if self.failures.len() < 60 {
+                    self.failures.push(trivia_failure(base.text, b, tr, &what));
+                }
+                if self.first_mutated.is_none() {
+                    self.first_mutated = Some(insert_trivia(base.text, b.pos, tr));
+                }
+            }
+        }
+    }
+
+    fn answer(self, positions: usize, classes: usize) -> Sexp {
+        if self.n_failures > 0 {
+            let mut v = vec![st("trivia changes the result"), node("failures", vec![num(self.n_failures)])];
+            v.extend(self.failures);
+            v.push(node("first-mutated-text", vec![st(excerpt(&self.first_mutated.unwrap_or_default()))]));
+            return node("fail", v);
+        }
+        let g: Vec<Sexp> = self.grammar.into_iter().map(|((c, why, eff), n)| node("g", vec![st(c), st(why), atom(eff), num(n)])).collect();
+        node(
+            "ok",
+            vec![
+                node("positions", vec![num(positions)]),
+                node("classes", vec![num(classes)]),
+                node("insertions", vec![num(self.insertions)]),
+                node("same", vec![num(self.same)]),
+                node("grammar-exceptions", g),
+            ],
+        )
+    }
+}
+
+impl C07 {
+    fn trivia_base<'a>(&'a self, text: &'a str) -> Result<(TriviaBase<'a>, Vec<trivia::Boundary>), Sexp> {
+        let doc = UiDocument::parse(text, "MyType", None);
+        let Some(bs) = trivia::boundaries(&doc) else {
+            return Err(node("fail", vec![st("trivia: the base document has syntax errors")]));
+        };
+        if let Some(outcome) = self.base_cache.lock().unwrap().get(text).cloned() {
+            return Ok((TriviaBase { tm: &self.tm, text, outcome }, bs));
+        }
+        match run_all_modes(&self.tm, text) {
+            Ok(outcome) => {
+                let outcome = std::sync::Arc::new(outcome);
+                self.base_cache.lock().unwrap().insert(text.to_owned(), outcome.clone());
+                Ok((TriviaBase { tm: &self.tm, text, outcome }, bs))
+            }
+            Err((what, mode, true)) => Err(node("panic", vec![st(what), node("mode", vec![atom(mode)]), atom("base-document")])),
+            Err((what, mode, false)) => Err(node("fail", vec![st(what), node("mode", vec![atom(mode)]), atom("base-document")])),
+        }
+    }
+
+    /// `(c07-trivia "base" POS "trivia")`: one insertion
+    fn answer_trivia(&self, text: &str, pos: usize, tr: &str) -> Sexp {
+        let (base, _) = match self.trivia_base(text) {
+            Ok(x) => x,
+            Err(a) => return a,
+        };
+        if pos > text.len() || !text.is_char_boundary(pos) {
+            return node("fail", vec![st("trivia: bad position")]);
+        }
+        let doc = UiDocument::parse(text, "MyType", None);
+        let b = trivia::boundary_at(&doc, pos);
+        let mut tally = TriviaTally::default();
+        tally.record(&base, &b, tr);
+        tally.answer(1, 1)
+    }
+
+    /// `(c07-trivia-each "base" SEED)`: at EVERY token boundary one trivia text without and one with a line terminator,
+    /// each translated in one of the three modes
+    fn answer_trivia_each(&self, text: &str, seed: u64) -> Sexp {
+        let (base, bs) = match self.trivia_base(text) {
+            Ok(x) => x,
+            Err(a) => return a,
+        };
+        let mut tally = TriviaTally::default();
+        let classes: std::collections::BTreeSet<String> = bs.iter().map(|b| b.class()).collect();
+        for b in &bs {
+            // the concrete-syntax adapters a comment can disturb run before the mode is looked at: each insertion is
+            // translated in ONE mode (rotating); the single / saturated trivia cases run all three
+            let mut rng = Rng::fork(seed, "c07-trivia-each", b.pos as u64);
+            let k = rng.below(3);
+            tally.record_in(&base, b, *rng.pick(trivia::INLINE), &[Mode::all()[k]]);
+            tally.record_in(&base, b, *rng.pick(trivia::WITH_NEWLINE), &[Mode::all()[(k + 1) % 3]]);
+            if b.pos == text.len() {
+                // a comment that ends with the file
+                tally.record(&base, b, "// eof");
+                tally.record(&base, b, "/* eof */");
+            }
+        }
+        tally.answer(bs.len(), classes.len())
+    }
+
+    /// `(c07-trivia-sat "base" "trivia")`: the trivia text at every token boundary AT ONCE (except where the grammar
+    /// itself parses differently).  If that changes the result, every boundary is tried alone: the ones that fail alone
+    /// are reported, and the saturation without them must then be equal.
+    fn answer_trivia_sat(&self, text: &str, tr: &str) -> Sexp {
+        let (base, bs) = match self.trivia_base(text) {
+            Ok(x) => x,
+            Err(a) => return a,
+        };
+        let classes: std::collections::BTreeSet<String> = bs.iter().map(|b| b.class()).collect();
+        let usable: Vec<&trivia::Boundary> = bs.iter().filter(|b| trivia::grammar_exception(b, tr).is_none()).collect();
+        let saturate = |skip: &std::collections::BTreeSet<usize>| {
+            let mut s = text.to_owned();
+            for b in usable.iter().rev() {
+                if !skip.contains(&b.pos) {
+                    s = insert_trivia(&s, b.pos, tr);
+                }
+            }
+            s
+        };
+        let none = std::collections::BTreeSet::new();
+        let all = saturate(&none);
+        let Err(first) = base.judge_text(&all) else {
+            return node(
+                "ok",
+                vec![
+                    node("positions", vec![num(bs.len())]),
+                    node("classes", vec![num(classes.len())]),
+                    node("insertions", vec![num(usable.len())]),
+                    node("skipped-grammar-exceptions", vec![num(bs.len() - usable.len())]),
+                    node("bytes", vec![num(all.len())]),
+                ],
+            );
+        };
+        // localise
+        let mut tally = TriviaTally::default();
+        let mut bad = std::collections::BTreeSet::new();
+        for b in &usable {
+            let before = tally.n_failures;
+            tally.record(&base, b, tr);
+            if tally.n_failures > before {
+                bad.insert(b.pos);
+            }
+        }
+        // … and the two boundaries of one gap between two tokens together (two comments in a row)
+        for w in usable.windows(2) {
+            let (a, b) = (w[0], w[1]);
+            if bad.contains(&a.pos) || bad.contains(&b.pos) || !text[a.pos..b.pos].trim().is_empty() {
+                continue;
+            }
+            let both = insert_trivia(&insert_trivia(text, b.pos, tr), a.pos, tr);
+            if let Err(what) = base.judge_text(&both) {
+                tally.n_failures += 1;
+                tally.failures.push(node("f", vec![st(format!("{} + {}", a.class(), b.class())), num(a.pos), st(line_col(text, a.pos)), st(tr), st(what)]));
+                tally.first_mutated.get_or_insert(both);
+                bad.insert(b.pos);
+            }
+        }
+        let _ = first;
+        let rest = saturate(&bad);
+        if let Err(d) = base.judge_text(&rest) {
+            return node(
+                "fail",
+                vec![
+                    st("trivia changes the result in combination (beyond the positions that fail alone)"),
+                    st(d),
+                    node("mutated-text", vec![st(excerpt(&rest))]),
+                ],
+            );
+        }
+        tally.answer(bs.len(), classes.len())
+    }
 }
 
 fn panic_text(e: Box<dyn std::any::Any + Send>) -> String {
@@ -827,18 +1404,42 @@ fn cst_depth(src: &str) -> Option<usize> {
         .ok()
 }
 
+/// Where the source file lives relative to the working directory of the CLI run (the report prints the path of the
+/// document relative to the working directory: src/reporting.rs make_cwd_relative_path).
+#[derive(Clone, Copy, PartialEq)]
+enum CliLayout {
+    /// `Main.qml` in the working directory
+    Flat,
+    /// `sub/é dir/Main.qml`, given as that relative path
+    Sub,
+    /// `<tmp>/src/Main.qml`, given as an absolute path, working directory `<tmp>/cwd/deep` (→ `../../src/Main.qml`)
+    Up,
+}
+
 fn run_cli(src: &str, reject: bool) -> Sexp {
+    run_cli_in(src, reject, CliLayout::Flat)
+}
+
+fn run_cli_in(src: &str, reject: bool, layout: CliLayout) -> Sexp {
     let bin = env::cli_binary();
     let dir = match tempfile::Builder::new().prefix("qv-c07-").tempdir_in(std::env::temp_dir()) {
         Ok(d) => d,
         Err(e) => return node("fail", vec![st("tempdir"), st(e.to_string())]),
     };
-    let file = dir.path().join("Main.qml");
+    let (src_dir, cwd, arg) = match layout {
+        CliLayout::Flat => (dir.path().to_owned(), dir.path().to_owned(), "Main.qml".to_owned()),
+        CliLayout::Sub => (dir.path().join("sub/é dir"), dir.path().to_owned(), "sub/é dir/Main.qml".to_owned()),
+        CliLayout::Up => (dir.path().join("src"), dir.path().join("cwd/deep"), dir.path().join("src/Main.qml").to_string_lossy().into_owned()),
+    };
+    if let Err(e) = std::fs::create_dir_all(&src_dir).and_then(|_| std::fs::create_dir_all(&cwd)) {
+        return node("fail", vec![st("mkdir"), st(e.to_string())]);
+    }
+    let file = src_dir.join("Main.qml");
     if let Err(e) = std::fs::write(&file, src) {
         return node("fail", vec![st("write"), st(e.to_string())]);
     }
     let mut cmd = std::process::Command::new(&bin);
-    cmd.current_dir(dir.path())
+    cmd.current_dir(&cwd)
         .env("NO_COLOR", "")
         .env_remove("RUST_BACKTRACE")
         .arg("generate-ui")
@@ -854,7 +1455,7 @@ fn run_cli(src: &str, reject: bool) -> Sexp {
         Ok(f) => f,
         Err(e) => return node("fail", vec![st("stderr-file"), st(e.to_string())]),
     };
-    cmd.arg("Main.qml").stdin(std::process::Stdio::null()).stdout(std::process::Stdio::null()).stderr(std::process::Stdio::from(err_file));
+    cmd.arg(&arg).stdin(std::process::Stdio::null()).stdout(std::process::Stdio::null()).stderr(std::process::Stdio::from(err_file));
     let mut child = match cmd.spawn() {
         Ok(c) => c,
         Err(e) => return node("fail", vec![st("spawn"), st(e.to_string())]),
@@ -875,7 +1476,7 @@ fn run_cli(src: &str, reject: bool) -> Sexp {
         }
     };
     let stderr = std::fs::read(&err_path).map(|b| String::from_utf8_lossy(&b).into_owned()).unwrap_or_default();
-    let wrote_ui = dir.path().join("main.ui").exists();
+    let wrote_ui = src_dir.join("main.ui").exists();
     let Some(status) = status else {
         // where was the time spent?  Run the tree-sitter parse alone on a helper thread with the same budget
         // (the thread is abandoned if it does not finish: it cannot be interrupted)
@@ -898,6 +1499,15 @@ fn run_cli(src: &str, reject: bool) -> Sexp {
             }
             if c == 1 && !stderr.contains("error") {
                 return node("fail", vec![st("cli-exit-1-without-report"), st(stderr.chars().take(300).collect::<String>())]);
+            }
+            // the report names the document relative to the working directory
+            let shown = match layout {
+                CliLayout::Flat => "Main.qml",
+                CliLayout::Sub => "sub/é dir/Main.qml",
+                CliLayout::Up => "../../src/Main.qml",
+            };
+            if c == 1 && layout != CliLayout::Flat && !stderr.contains(shown) {
+                return node("fail", vec![st("cli-report-does-not-name-the-document"), st(shown), st(stderr.chars().take(300).collect::<String>())]);
             }
             node("ok", vec![node("exit", vec![num(c)]), node("wrote-ui", vec![atom(wrote_ui.to_string())])])
         }
@@ -948,8 +1558,9 @@ impl Stream for C07 {
         for (origin, text) in &self.bases {
             push(vec!["base".into(), origin.split(':').next().unwrap().to_owned()], text.clone());
         }
-        // (d) semantic stress
-        let stress = semantic_stress();
+        // (d) semantic stress + control-flow stress
+        let mut stress: Vec<(String, String)> = semantic_stress().into_iter().map(|(n, t)| (n.to_owned(), t)).collect();
+        stress.extend(control_flow_stress());
         for (name, text) in &stress {
             push(vec!["stress".into(), format!("stress:{name}")], text.clone());
         }
@@ -995,6 +1606,66 @@ impl Stream for C07 {
                 push(vec!["truncation".into(), format!("of:{origin}")], text[..p].to_owned());
             }
         }
+        // (e) trivia: comments and blank space at EVERY token boundary of the valid documents of the pool
+        //     each: every boundary of every valid stress document, one insertion without and one with a line terminator;
+        //     single: per position class (parent:prev|next) a sample of boundaries over the whole pool (labelled by class);
+        //     sat: every document with one trivia text at all boundaries at once
+        {
+            let mut valid: Vec<(&str, &str, Vec<trivia::Boundary>)> = vec![];
+            for (origin, text) in &pool {
+                if text.len() > 16 * 1024 || text.contains('\r') && !text.contains('\n') {
+                    continue;
+                }
+                let doc = UiDocument::parse(*text, "MyType", None);
+                if let Some(bs) = trivia::boundaries(&doc) {
+                    valid.push((origin, text, bs));
+                }
+            }
+            let mut by_class: std::collections::BTreeMap<String, Vec<(usize, usize)>> = Default::default();
+            for (d, (origin, text, bs)) in valid.iter().enumerate() {
+                if *origin == "stress" || (thorough && text.len() <= 4096) {
+                    cases.push(Case {
+                        kind: "oracle",
+                        labels: vec!["trivia".into(), "trivia:each".into(), format!("of:{origin}")],
+                        request: node("c07-trivia-each", vec![st(*text), num(seed % 1_000_000)]),
+                    });
+                }
+                for (i, b) in bs.iter().enumerate() {
+                    by_class.entry(b.class()).or_default().push((d, i));
+                }
+                let mut rng = Rng::fork(seed, "c07-trivia-sat", d as u64);
+                let sat: Vec<&str> = if thorough {
+                    trivia::INLINE.iter().chain(trivia::WITH_NEWLINE).copied().collect()
+                } else {
+                    vec![*rng.pick(trivia::INLINE), *rng.pick(trivia::WITH_NEWLINE)]
+                };
+                for tr in sat {
+                    cases.push(Case {
+                        kind: "oracle",
+                        labels: vec!["trivia".into(), "trivia:sat".into(), format!("of:{origin}")],
+                        request: node("c07-trivia-sat", vec![st(*text), st(tr)]),
+                    });
+                }
+            }
+            let per_class = std::env::var("QV_C07_TRIVIA_PER_CLASS").ok().and_then(|v| v.parse().ok()).unwrap_or(if thorough { 80 } else { 3 });
+            for (k, (class, places)) in by_class.iter().enumerate() {
+                let mut rng = Rng::fork(seed, "c07-trivia-single", k as u64);
+                for _ in 0..per_class.min(places.len() * 2) {
+                    let (d, i) = *rng.pick(places);
+                    let (origin, text, bs) = &valid[d];
+                    for tr in [*rng.pick(trivia::INLINE), *rng.pick(trivia::WITH_NEWLINE)] {
+                        cases.push(Case {
+                            kind: "oracle",
+                            labels: vec!["trivia".into(), "trivia:single".into(), format!("pos:{}", bs[i].parent), format!("class:{class}"), format!("of:{origin}")],
+                            request: node("c07-trivia", vec![st(*text), num(bs[i].pos), st(tr)]),
+                        });
+                    }
+                }
+            }
+        }
+        let mut push = |labels: Vec<String>, text: String| {
+            cases.push(Case { kind: "oracle", labels, request: node("c07", vec![st(text)]) });
+        };
         // bounded deep nesting, in-process (≤ 60 levels)
         for kind in ["sum", "objects", "parens", "array", "ternary", "unary", "member", "block", "if", "grouped", "dotted", "string-concat"] {
             for d in [1, 2, 7, 30, MAX_INPROC_DEPTH] {
@@ -1025,6 +1696,32 @@ impl Stream for C07 {
             cli(vec!["cli".into(), "cli:stress".into(), format!("stress:{name}")], node("c07-cli", vec![atom("generate"), st(text.clone())]));
             if i % 3 == 0 {
                 cli(vec!["cli".into(), "cli:stress-reject".into()], node("c07-cli", vec![atom("reject"), st(text.clone())]));
+            }
+            // the document in a sub-directory with a non-ASCII name / above the working directory (path in the report)
+            if i % 8 == 1 {
+                cli(vec!["cli".into(), "cli:stress-sub".into()], node("c07-cli", vec![atom("generate-sub"), st(text.clone())]));
+            }
+            if i % 8 == 5 {
+                cli(vec!["cli".into(), "cli:stress-up".into()], node("c07-cli", vec![atom("reject-up"), st(text.clone())]));
+            }
+        }
+        // … and the control-flow stress documents with a comment at a random token boundary / at all of them
+        for (i, (name, text)) in stress.iter().enumerate().filter(|(_, (n, _))| n.starts_with("switch-") || n.starts_with("if-chain-1")) {
+            let doc = UiDocument::parse(text.as_str(), "MyType", None);
+            if let Some(bs) = trivia::boundaries(&doc) {
+                let mut rng = Rng::fork(seed, "c07-cli-trivia", i as u64);
+                let inner: Vec<&trivia::Boundary> = bs.iter().filter(|b| b.parent.starts_with("switch_") || b.parent == "else_clause" || b.parent == "if_statement").collect();
+                let b = if inner.is_empty() { rng.pick(&bs) } else { *rng.pick(&inner) };
+                let tr = if rng.chance(1, 2) { "/* c */" } else { "// c\n" };
+                cli(
+                    vec!["cli".into(), "cli:trivia".into(), format!("stress:{name}")],
+                    node("c07-cli", vec![atom("generate"), st(insert_trivia(text, b.pos, tr))]),
+                );
+                let mut all = text.clone();
+                for b in bs.iter().rev().filter(|b| trivia::grammar_exception(b, "/* c */").is_none()) {
+                    all = insert_trivia(&all, b.pos, "/* c */");
+                }
+                cli(vec!["cli".into(), "cli:trivia-sat".into(), format!("stress:{name}")], node("c07-cli", vec![atom("generate"), st(all)]));
             }
         }
         for k in 0..40 * scale.min(10) {
@@ -1069,9 +1766,21 @@ impl Stream for C07 {
                     ],
                 )
             }
+            "c07-trivia" => self.answer_trivia(args[0].as_str().expect("text"), args[1].as_usize().expect("pos"), args[2].as_str().expect("trivia")),
+            "c07-trivia-each" => self.answer_trivia_each(args[0].as_str().expect("text"), args[1].as_usize().expect("seed") as u64),
+            "c07-trivia-sat" => self.answer_trivia_sat(args[0].as_str().expect("text"), args[1].as_str().expect("trivia")),
+            "c07-trivia-scan" => {
+                let doc = UiDocument::parse(args[0].as_str().expect("text"), "MyType", None);
+                match trivia::boundaries(&doc) {
+                    Some(bs) => node("boundaries", bs.iter().map(|b| node("b", vec![num(b.pos), st(b.class())])).collect()),
+                    None => node("syntax-error", vec![]),
+                }
+            }
             "c07-cli" => {
-                let reject = args[0].as_atom() == Some("reject");
-                run_cli(args[1].as_str().expect("text"), reject)
+                let how = args[0].as_atom().unwrap_or("generate");
+                let reject = how.starts_with("reject");
+                let layout = if how.ends_with("-sub") { CliLayout::Sub } else if how.ends_with("-up") { CliLayout::Up } else { CliLayout::Flat };
+                run_cli_in(args[1].as_str().expect("text"), reject, layout)
             }
             "c07-cli-gen" => {
                 let reject = args[0].as_atom() == Some("reject");
